@@ -298,6 +298,11 @@ def posnode(p0=None, p1=None, /, uid=None, a=None, *va, **vk):
 SHARED_DEFAULT = ['shared', 'default']
 
 
+def prefdef(opt=SHARED_DEFAULT, opt_extra=None, opt2=None, other=None):
+  """Parameter names that are textual prefixes of each other (opt / opt_extra / opt2)."""
+  return _r.rec('prefdef', locals())
+
+
 def mutdef(a=SHARED_DEFAULT, b=SHARED_DEFAULT, c=(1, 2), d=None):
   """Defaults that are a shared mutable object."""
   return _r.rec('mutdef', locals())
